@@ -260,6 +260,14 @@ def run(chk):
             chk.fail("c02:rotated-secret-still-accepted", "after update-user changed the secret, requests signed with the old secret answer GET %d / PUT %d%s"
                      % (stale.status, stale_put.status, " and change the storage" if changed else ""),
                      {"warm_status": warm.status, "update_status": upd.status, "stale_get": stale.status, "stale_put": stale_put.status, "changed": changed})
+        # a create-user the gateway refuses (the account exists) must not change which secret is accepted
+        dup = cl.req("PATCH", "/create-user", body=b"<Account><Access>victim</Access><Secret>refused-secret</Secret><Role>admin</Role><UserID>0</UserID><GroupID>0</GroupID></Account>")
+        forged = s3c.Client(g.port, "victim", "refused-secret").req("GET", "/bk1/obj2")
+        real = s3c.Client(g.port, "victim", "rotated").req("GET", "/bk1/obj2")
+        chk.case(("history", "refused-create-user"), True); chk.traces += 1
+        if dup.status >= 400 and (forged.status == 200 or real.status != 200):
+            chk.fail("c02:refused-create-user-changes-secret", "after a create-user for an existing account was refused (%d %s), the secret it named answers %d and the account's real secret %d"
+                     % (dup.status, dup.code, forged.status, real.status), {"create_user": dup.status, "refused_secret_get": forged.status, "real_secret_get": real.status})
         cl.req("PATCH", "/delete-user", query={"access": "victim"})
         gone = s3c.Client(g.port, "victim", "rotated").req("GET", "/bk1/obj2")
         chk.case(("history", "deleted-account"), True); chk.traces += 1
